@@ -606,6 +606,8 @@ func (vc *VC) enterLoop(fr *Frame, li *loopInfo, phiIn map[*ssa.Phi]*Val) {
 	fr.discover[li.header] = map[string]bool{}
 	saveWrites := vc.discWrites
 	vc.discWrites = map[string][]string{}
+	saveHavocs := vc.discHavocs
+	vc.discHavocs = nil
 	startCounter := vc.nfresh
 	if fr.discHeader == nil {
 		fr.discHeader = map[*ssa.BasicBlock]*State{}
@@ -620,6 +622,8 @@ func (vc *VC) enterLoop(fr *Frame, li *loopInfo, phiIn map[*ssa.Phi]*Val) {
 	delete(fr.discover, li.header)
 	writes := vc.discWrites
 	vc.discWrites = saveWrites
+	havocs := vc.discHavocs
+	vc.discHavocs = append(saveHavocs, havocs...)
 	if saveWrites != nil {
 		// an enclosing discovery pass sees these writes too
 		for k, v := range writes {
@@ -670,7 +674,34 @@ func (vc *VC) enterLoop(fr *Frame, li *loopInfo, phiIn map[*ssa.Phi]*Val) {
 		vc.havocStorage(k, srt)
 	}
 	if modified["__epoch"] {
-		vc.havocAll("loop body calls code without a contract")
+		// The body changes the whole heap.  When every such change comes from
+		// a callee declaring `modifies heap`, ghost state and what all of
+		// those callees preserve survive (the ghosts the body modifies were
+		// forgotten one by one above).
+		heapOnly := len(havocs) > 0
+		var keep map[string]bool
+		for i, h := range havocs {
+			heapOnly = heapOnly && h.keepGhost
+			if i == 0 {
+				keep = map[string]bool{}
+				for k := range h.keep {
+					keep[k] = true
+				}
+				continue
+			}
+			for k := range keep {
+				if !h.keep[k] {
+					delete(keep, k)
+				}
+			}
+		}
+		if heapOnly {
+			vc.keepHeaps = keep
+			vc.havocHeap("loop body calls code that may change the whole heap")
+			vc.keepHeaps = nil
+		} else {
+			vc.havocAll("loop body calls code without a contract")
+		}
 	}
 	// Frame: every write in the function under verification is checked against
 	// its modifies clause, so objects that existed at entry and are not named
@@ -800,6 +831,13 @@ func (vc *VC) discBase(fr *Frame, header *ssa.BasicBlock, k string) string {
 		if t, ok := hb.m[k]; ok {
 			return t
 		}
+		// not read before the loop: the version a read at the header would
+		// have named (a havoc inside the body that pins preserved storage
+		// produces exactly this name, which is not a modification)
+		if hb.epoch != "" && heapLike(k) && !vc.immutableHeaps()[k] {
+			return k + "@" + hb.epoch
+		}
+		return k + "@0"
 	}
 	return "\x00none"
 }
@@ -974,6 +1012,27 @@ func (vc *VC) execInstr(fr *Frame, in ssa.Instruction) {
 		nv := *x
 		nv.Ty = in.Type()
 		fr.vals[in] = &nv
+	case *ssa.SliceToArrayPointer:
+		// (*[N]T)(s): panics when len(s) < N; the result addresses the
+		// window of s's array starting at its offset (an opaque reference
+		// determined by array and offset; a nil slice gives nil for N == 0
+		// only, which the length obligation covers for N > 0).
+		x := vc.valueOf(fr, in.X)
+		n := int64(0)
+		if pt, ok := in.Type().Underlying().(*types.Pointer); ok {
+			if at, ok := pt.Elem().Underlying().(*types.Array); ok {
+				n = at.Len()
+			}
+		}
+		vc.oblige("safety-slice", "array-pointer", fmt.Sprintf("(<= %d (s_len %s))", n, x.T), in.Pos(), "slice to array pointer: the slice is long enough")
+		if !vc.declared["sl2arr"] {
+			vc.declare("sl2arr", "(declare-fun sl2arr (Int Int) Int)")
+		}
+		r := vc.define("sl2arr_"+in.Name(), "Int", fmt.Sprintf("(sl2arr (s_arr %s) (s_off %s))", x.T, x.T))
+		if n > 0 {
+			vc.assume(fmt.Sprintf("(not (= %s 0))", r))
+		}
+		fr.vals[in] = &Val{T: r, Ty: in.Type()}
 	case *ssa.MakeInterface:
 		fr.vals[in] = vc.makeInterface(fr, in)
 	case *ssa.TypeAssert:
